@@ -77,6 +77,8 @@ impl OperationControl for UnambiguousRepeat {
         let mut p = position;
         let mut matches = 0;
         while matches < self.max && p <= guard {
+            #[cfg(feature = "verif-hooks")]
+            crate::verif::step(crate::verif::site::UNAMBIGUOUS);
             let mut iter = self.operation.matches_iter(matcher, p);
             if let Some(n) = iter.next() {
                 p = n;
